@@ -56,7 +56,7 @@ impl Prop for C19 {
                "assumptions": ["the bit-at-a-time reference in harness/src/props/c19.rs is the definition: CRC-16 poly 0x1021 MSB-first init 0; CRC-32 poly 0xEDB88320 LSB-first init ~0 final inversion", "update_crc32 is the raw (un-inverted) register update"]})
     }
     fn total(&mut self, ctx: &Ctx) -> u64 {
-        N_FIXED + ctx.tier.pick(2_000, 100_000)
+        N_FIXED + ctx.tier.pick(20_000, 100_000)
     }
     fn run_case(&mut self, ctx: &mut Ctx, k: u64) {
         ctx.begin(k);
